@@ -237,6 +237,9 @@ impl<T> Clone for Sender<T> {
 
 impl<T> Drop for Sender<T> {
     fn drop(&mut self) {
+        if !clock::active() {
+            return;
+        }
         if std::thread::panicking() {
             // never take a scheduling point while unwinding
             if let Ok(mut st) = self.ch.state.try_lock() {
@@ -364,6 +367,9 @@ impl<T> Clone for Receiver<T> {
 
 impl<T> Drop for Receiver<T> {
     fn drop(&mut self) {
+        if !clock::active() {
+            return;
+        }
         if std::thread::panicking() {
             if let Ok(mut st) = self.ch.state.try_lock() {
                 st.receivers = st.receivers.saturating_sub(1);
